@@ -4,7 +4,7 @@
    introduced as variables constrained by l * (x2 - x1) == y2 - y1.
    The addition is given as a RELATION [add_rel] (one constructor per branch of ECAffine.ec_add), so that
    the case analysis is an inversion; SM2/ECAssoc.v shows that ec_add satisfies the relation. *)
-From Coq Require Import ZArith Nsatz Setoid Morphisms.
+From Coq Require Import ZArith NsatzTactic Setoid Morphisms.
 
 Section Assoc.
   Context {F : Type} {f0 f1 : F} {fadd fmul fsub : F -> F -> F} {fopp : F -> F} {feq : F -> F -> Prop}.
